@@ -88,9 +88,17 @@ class Gen:
         rng = self.rng
         self.depth += 1
         try:
-            k = rng.randrange(19 if self.depth < 4 else 4)
+            k = rng.randrange(20 if self.depth < 4 else 4)
             if self.force is not None:
-                k = 15
+                k = 15 if self.force < 7 else 19
+            if k == 19:
+                # several orders outstanding at once (a native calls `order` per element; the markers are awaited later): the host may answer
+                # them in one call, one call each, in any order, with steps in between
+                self.force = None
+                n = self.val()
+                vs = [self.val() for _ in range(rng.randint(2, 4))]
+                return ("{ const ms%d = [%s].map(order); acc += 'm'; for (const m of ms%d) { acc += 'o' + (await m); } }"
+                        % (n, ", ".join("{v: %d}" % v for v in vs), n))
             if k == 18:
                 # an async function started from a callback that a NATIVE built-in invokes (map / forEach / sort / valueOf):
                 # its await has to suspend while the native frame is on the stack (known finding C07-await-under-native-frame)
@@ -258,7 +266,7 @@ def run(ctx):
         progs.append(("generated", g.program()))
         sites.append(sorted(g.sites))
     # every kind of synchronous caller frame at least once per run, whatever the random draws
-    for w in range(7):
+    for w in range(8):
         g = Gen(_r.Random(rng.randrange(2 ** 62)), force=w)
         progs.append(("generated", g.program()))
         sites.append(sorted(g.sites))
